@@ -74,6 +74,8 @@ def run_prop(prop, tier, seed, replay=None, make_cases=None):
     for i, c in enumerate(cases):
         if i % 7 == 5 and c.trait_name:
             c.trait_prefix = 'self::'       # the blocks name the trait through a two-segment path
+        if i % 7 == 2 and c.trait_name:
+            c.trait_prefix = '::me::'       # ... through an absolute path (`extern crate self as me`)
     if prop == 'C01':
         for i, c in enumerate(cases):
             c.with_type = (i % 2 == 0)      # every other case: the trait also has an associated type item
